@@ -97,12 +97,23 @@ Definition set_item_to_pe (child : value) : option pe :=
   end.
 
 (* listItemToPathElement *)
+(* The zero fieldpath.PathElement{} (no member set), which listItemToPathElement returns
+   together with its error and which the field-set and removing walkers go on to use.
+   PathElement.Compare puts it after every other element and equal to itself; it is
+   modelled as an index beyond the range of a Go int, which sorts the same way and
+   collides with no element of the implementation. *)
+Definition pe_zero : pe := PEIndex (2 ^ 70)%Z.
+
 Definition list_item_to_pe (s : schema) (t : listT) (child : value) : option pe :=
   if negb (rel_is_assoc (list_rel t)) then None
   else match list_keys t with
        | _ :: _ => keyed_item_to_pe s t child
        | [] => set_item_to_pe child
        end.
+
+(* listItemToPathElement with its error ignored *)
+Definition list_item_pe_or_zero (s : schema) (t : listT) (child : value) : pe :=
+  match list_item_to_pe s t child with Some e => e | None => pe_zero end.
 
 (* validateScalar: true = error; nil and null are accepted *)
 Definition validate_scalar (t : scalar) (v : option value) : bool :=
